@@ -15,7 +15,7 @@ ASSUMPTIONS = [
     "a response is counted at the client: one response head per HTTP/1.1 connection / one HEADERS frame per HTTP/2 stream",
 ]
 RULE = ("requests: CONNECT / GET / POST / PUT x authorities {canary ip:port, name:port, closed port, full-backlog listener, unresolvable name, private literal, loopback literal, "
-        "name without port, _check, _udp2, _icmp, _CHECK, _check:0, _udp2x, x_udp2, absolute URIs on reserved names} x private connections allowed/disallowed x "
+        "name without port, _check, _udp2, _icmp (with and without an ICMP forwarder set up), _CHECK, _check:0, _udp2x, x_udp2, absolute URIs on reserved names} x private connections allowed/disallowed x "
         "HTTP/1.1 / HTTP/2 x credentials valid / absent; non-trivial = every case; distinct = distinct session")
 
 # (name, method kind, target, payload, outcome class for the model)
@@ -34,7 +34,7 @@ def targets(private_allowed):
         ("connect-broadcast-unreachable", 1, b"255.255.255.255:80", b"", 6 if private_allowed else 3),
         ("get-net-unreachable", 6, b"http://224.0.0.1/x", b"", 6),
         ("connect-no-port", 1, b"localhost", b"", 0),
-        ("check", 1, b"_check", b"", 0), ("udp", 1, b"_udp2", dgram(), 0), ("icmp", 1, b"_icmp", b"", 0),
+        ("check", 1, b"_check", b"", 0), ("udp", 1, b"_udp2", dgram(), 0), ("icmp", 1, b"_icmp", b"", 2),      # no ICMP forwarder is set up in these sessions: the multiplexer cannot be made
         ("upper-case", 1, b"_CHECK", b"", 0), ("reserved-with-port", 1, b"_check:0", b"", 2), ("reserved-suffix", 1, b"_udp2x:80", b"", 2),
         ("reserved-prefix", 1, b"x_udp2:80", b"", 2),
         ("get-canary", 6, b"http://@A/x", b"", 0 if private_allowed else 4),
@@ -80,6 +80,16 @@ def gen_cases(rng, ctx):
             for i in range(0, len(ts), 6):
                 session([0, http2, 0, private], [(t, None) for t in ts[i:i + 6]],
                         "table:private%d-%s" % (private, "h3" if front == 3 else "h%d" % (2 if http2 else 1)), front)
+    # an ICMP forwarder set up (raw sockets on the loopback interface; skipped when they cannot be had): the multiplexer is accepted
+    for front, http2 in ((0, 0), (0, 1), (1, 0), (1, 1), (3, 1)):
+        reqs = [(("icmp-set-up", 1, b"_icmp", b"", 0), None), (("check", 1, b"_check", b"", 0), None), (("put-on-icmp", 8, b"http://_icmp/", b"d", 0), None)]
+        toks = []
+        for (tname, k, target, payload, oc), h in reqs:
+            toks += [[k, oc], list(target), hdr_tok(h), list(payload)]
+        cfg = [0, 1 if front == 3 else http2, 0, 1]
+        cases.append(Case(line("c01_session", [cfg + [front, 1]] + toks), line("c01_session", [cfg] + toks),
+                          kind="icmp-set-up" + ("" if front == 0 else "-listener" if front == 1 else "-quic"), nontrivial=True,
+                          meta={"cfg": cfg, "front": front, "reqs": [(t[0], t[1], t[4], h is not None) for t, h in reqs]}))
     for i in range(120 if thorough else 30):
         private = rng.below(2)
         ts = targets(private)
@@ -119,6 +129,8 @@ def judge(case, impl, model, spec, ctx):
             out.append(("violation", "%s: policy refusal %d without the host name header or with traffic (tcp=%d)" % (what, warn, tcp)))
         elif status == 200 and challenge:
             out.append(("violation", "%s: 200 with an authentication challenge" % what))
+        elif status == 200 and tname == "icmp" and oc != 0:
+            out.append(("violation", "%s: answered 200 although no ICMP forwarder is set up: the multiplexer is not accepted (the stream is closed right after)" % what))
         if out:
             break
         if n < len(manswers) and a[:6] != manswers[n][:6]:
